@@ -1468,6 +1468,10 @@ class Evaluator:
                 for t, v in zip(tgt.elts, value.items):
                     self.bind_target(t, v, env, node)
                 return
+            if isinstance(value, VRef) and len(tgt.elts) <= 3 and (value.cls == "tuple" or value.cls is None and self.path.entails_quick(self.heap.tag_in(value.t, "tuple"))):
+                for k, t in enumerate(tgt.elts):
+                    self.bind_target(t, self.heap.getattr(VRef(value.t, "tuple"), f"t{k}", node), env, node)
+                return
             self.oos(node, "tuple unpacking of non-tuple")
         if isinstance(tgt, ast.Attribute):
             base = self.ev(tgt.value, env)
